@@ -219,7 +219,19 @@ def check_nested_func_def(
             func = ParsedFunctionDef(def_id, func_def.name, func_def, func_ty, None)
             DEF_STORE.register_def(func, None)
             ENGINE.parsed[def_id] = func
-            globals.f_locals[func_def.name] = GuppyDefinition(func)
+            # Make the function visible under its own name while its body is checked.
+            # We must not write into `globals.f_locals` itself: that dict is the
+            # namespace of the user's module (or enclosing Python function), so the
+            # name would stay rebound after checking and shadow a module-level
+            # definition with the same name in later compilations.
+            nested_globals = Globals(None)
+            nested_globals.f_locals = {
+                **globals.f_locals,
+                func_def.name: GuppyDefinition(func),
+            }
+            nested_globals.f_globals = globals.f_globals
+            nested_globals.f_builtins = globals.f_builtins
+            globals = nested_globals
         else:
             # Otherwise, we treat it like a local name
             inputs.append(Variable(func_def.name, func_def.ty, func_def))
